@@ -7,6 +7,7 @@ pub mod c08;
 pub mod c09;
 pub mod c10;
 pub mod c12;
+pub mod c13;
 
 use crate::engine::Prop;
 
@@ -21,6 +22,7 @@ pub fn get(id: &str) -> Option<Box<dyn Prop>> {
     "C09" => Some(Box::new(c09::C09)),
     "C10" => Some(Box::new(c10::C10)),
     "C12" => Some(Box::new(c12::C12)),
+    "C13" => Some(Box::new(c13::C13)),
     _ => None,
   }
 }
